@@ -414,7 +414,8 @@ func cmdC04Seq(args []string) {
 	defer out.Close()
 	sum := Summary{}
 	for _, c := range cases {
-		sum.Inc("ops", c04seqRun(out, c))
+		c := c
+		deadline(out, caseDeadline, func() { sum.Inc("ops", c04seqRun(out, c)) })
 		out.tr++
 	}
 	sum["events"] = out.n
